@@ -211,7 +211,12 @@ pub fn one_history(rng: &mut Rng, sink: &mut Sink, n_ops: usize, allow_cons_off:
                 // the pre-state, the answer recorded here is the real post-state
                 let content = erase_labels(&s.dump());
                 sink.lines.insert(mark, (format!("forest spec {}", req), content));
-                sink.lines.insert(mark + 1, (format!("forest specx {}", req), "1".into()));
+                // handle-for-handle cross-check inside the model, for the calls with an exact
+                // theorem (for `replace` next to the replacing node xot keeps the replacing
+                // text node, i.e. the survivor rule is not "the moved node never survives")
+                if op != "replace" {
+                    sink.lines.insert(mark + 1, (format!("forest specx {}", req), "1".into()));
+                }
                 sink.stat("spec.checked");
                 sink.stat(&format!("spec.checked.{}", op));
             }
